@@ -28,6 +28,8 @@ CHECKS = {
          "Generated block-structured histories on cw4-group (UpdateMembers with overlapping add/remove lists, re-weights, remove-then-re-add, several changes per block) and cw4-stake (bond/unbond by several users): after every transaction TotalWeight == sum of paged ListMembers, Member == listing, raw TOTAL_KEY / member_key(addr) reads == smart queries; at the end of every block Member{at_height:h} (and cw4-group TotalWeight{at_height:h}) is compared with the model's start-of-block value for every pool address and every h from before instantiation to now+2.", "DESIGN.md section 4 / C09"),
  "C14": ("cw4", "stateful property-based testing; admin-gate invariants + truthfulness check of every decoded MemberChangedHookMsg",
          "Generated histories of UpdateAdmin / AddHook / RemoveHook / UpdateMembers (cw4-group) and Bond / Unbond (cw4-stake) by admins, ex-admins and strangers with 0-3 hooks: membership (group), hook list and admin differ only after a successful call by the pre-call admin and never once the admin is cleared; every successful membership-changing call's Response.messages are decoded and composed per key (first old == pre weight, entries chain, last new == post weight), every changed address appears, each registered hook gets exactly one notification, removed hooks none.", "DESIGN.md section 4 / C14"),
+ "C10": ("stake", "stateful property-based testing on a cw-multi-test chain with real bank / cw20 balances; stake-and-claim ledger as reference model",
+         "Generated configurations (native or cw20 stake token, tokens_per_weight from 1 to > 2^64, min_bond, height- or time-based unbonding) and histories of bond / unbond / claim / foreign-token attempts / donations by three users funded up to 2^127 over block and time advances: after every call the contract's real balance must cover (equal, without donations) the sum of Staked plus unreleased Claims; a user's stake changes only by its own successful bond (+ exactly the funds moved) or unbond; foreign tokens never accepted; a paying Claim pays exactly the matured claims, never before unbond + period, and removes exactly those; Member is reported iff stake >= min_bond with weight == stake / tokens_per_weight computed in u128 (never wrapped); TotalWeight == sum of member weights.", "DESIGN.md section 4 / C10"),
  "C13": ("cw20", "stateful property-based testing, minter/cap invariants after every call",
          "Generated histories weighted to Mint/Burn/UpdateMinter by minter, ex-minters and strangers with caps at initial supply -1/0/+1 and mint amounts at cap-supply(+1); invariants on supply, cap and minter identity after every call.", "DESIGN.md section 4 / C13"),
  "C20": ("page", "property-based testing of every list query: generated state sizes / deletions / limits / cursors, paged walk vs model key set and point queries",
@@ -39,6 +41,7 @@ CHECKS = {
 FAMILIES = {
  "cw3": ("harness/fam_cw3 (module multisig)", "proptest op-sequence generator + interpreter over cw3-fixed-multisig / cw3-flex-multisig + cw4-group + cw20-base + recorder contract on cw-multi-test"),
  "cw3lib": ("harness/fam_cw3 (module tally)", "proptest generator of (threshold, total, tally, expiry) + exact u128 model + completion enumeration over cw3::Proposal"),
+ "stake": ("harness/fam_stake", "proptest op-sequence generator + interpreter over cw4-stake with real cw20-base and bank module on cw-multi-test"),
  "cw4": ("harness/fam_cw4", "proptest block-structured history generator + interpreter over cw4-group / cw4-stake entry points (direct driver)"),
  "page": ("harness/fam_page", "proptest generator of (listing, size, deletions, limit, cursor) + paged-walk oracle over all list queries (direct driver; cw-multi-test for cw3-flex)"),
  "cw20": ("harness/fam_cw20", "proptest op-sequence generator + interpreter over cw20-base entry points (direct driver)"),
